@@ -83,6 +83,8 @@ class Driver:
         self.step_count: int = 0
         self.max_steps: int = 0
 
+        self._initial_observers_called: bool = False
+
         self.file_manager: Final = ObserverManager()
 
         self.default_logger = logfile
@@ -106,7 +108,9 @@ class Driver:
 
         self.max_steps = self.step_count + steps
 
-        if self.step_count == 0:
+        if self.step_count == 0 and not self._initial_observers_called:
+            self._initial_observers_called = True
+
             if self.default_logger:
                 self.default_logger.write_header()
 
